@@ -51,6 +51,12 @@ PY_PALETTE = [
     {"$py": "strsub", "v": HK}, {"$py": "strsub", "v": "root"}, {"$py": "intsub", "v": 1}, {"$py": "intsub", "v": 0},
     {"$py": "dictsub", "v": {"pubkeys": [HK], "threshold": 1}}, {"$py": "dictsub", "v": {}}, {"$py": "listsub", "v": [HK]},
     {"$py": "key", "which": "private", "seed": "00" * 32}, {"$py": "key", "which": "public", "seed": "00" * 32},
+    # mappings with a __missing__ hook (collections.defaultdict): indexing manufactures values, membership tests do not
+    {"$py": "defaultdict", "default": {}, "v": {}}, {"$py": "defaultdict", "default": 0, "v": {}},
+    {"$py": "defaultdict", "default": {"pubkeys": [HK], "threshold": 1}, "v": {}},
+    {"$py": "defaultdict", "default": {"pubkeys": [HK], "threshold": 1}, "v": {"pkg_mgr": {"pubkeys": [HK2], "threshold": 1}}},
+    {"$py": "defaultdict", "default": SIG, "v": {}}, {"$py": "defaultdict", "default": "", "v": {"signature": SIG, "other_headers": "04"}},
+    {"$py": "defaultdict", "default": None, "v": {"signature": SIG}},
 ]
 
 # containers and byte strings whose LENGTH equals a grammar's fixed length (40 / 64 / 128): length-first checks
